@@ -5,10 +5,15 @@ use super::super::{
     meta_subscriber::MoveSubscriber,
     meta_container::MoveContainer,
 };
+#[cfg(not(feature = "verif"))]
 use std::{fmt::Debug, sync::atomic::{
     AtomicU32,
     Ordering::{Relaxed, Release},
 }, ptr, cell::UnsafeCell, num::NonZeroU32, pin::Pin, mem::ManuallyDrop};
+#[cfg(feature = "verif")]
+use std::{fmt::Debug, sync::atomic::Ordering::{Relaxed, Release}, ptr, cell::UnsafeCell, num::NonZeroU32, pin::Pin, mem::ManuallyDrop};
+#[cfg(feature = "verif")]
+use crate::verif::AtomicU32;
 use crossbeam::utils::CachePadded;
 
 
@@ -49,6 +54,17 @@ AtomicMove<SlotType, BUFFER_SIZE> {
         // if !BUFFER_SIZE.is_power_of_two() {
         //     panic!("FullSyncMeta: BUFFER_SIZE must be a power of 2, but {BUFFER_SIZE} was provided.");
         // }
+        #[cfg(feature = "verif")]
+        if crate::verif::sequence_origin() != 0 {
+            let origin = crate::verif::sequence_origin();
+            return Self {
+                head:                 CachePadded::new(AtomicU32::new(origin)),
+                tail:                 CachePadded::new(AtomicU32::new(origin)),
+                dequeuer_head:        CachePadded::new(AtomicU32::new(origin)),
+                enqueuer_tail:        CachePadded::new(AtomicU32::new(origin)),
+                buffer:               UnsafeCell::new(Box::pin([0; BUFFER_SIZE].map(|_| ManuallyDrop::new(slot_initializer())))),
+            }
+        }
         Self {
             head:                 CachePadded::new(AtomicU32::new(0)),
             tail:                 CachePadded::new(AtomicU32::new(0)),
